@@ -15,9 +15,12 @@ package main
 import (
 	"bytes"
 	"context"
+	"encoding/json"
 	"errors"
 	"fmt"
 	"io"
+	"os"
+	"path/filepath"
 	"runtime"
 	"strconv"
 	"strings"
@@ -67,15 +70,16 @@ type rop struct {
 }
 
 type rcase struct {
-	Kind    string    `json:"kind"` // chain | tree
-	N       int       `json:"n"`
-	DagSeed uint64    `json:"dagseed"`
-	Local   uint64    `json:"local"` // bit i: block i is in the local store
-	GP      bool      `json:"gp"`    // gate before ExecuteTask
-	GH      bool      `json:"gh"`    // gate inside the block hook and the local store read
-	Ops     []rop     `json:"ops"`
-	Pair    *pairSpec `json:"pair,omitempty"` // two-request family (pair.go); the fields above are unused then
-	Tags    []string  `json:"tags,omitempty"`
+	Kind    string       `json:"kind"` // chain | tree
+	N       int          `json:"n"`
+	DagSeed uint64       `json:"dagseed"`
+	Local   uint64       `json:"local"` // bit i: block i is in the local store
+	GP      bool         `json:"gp"`    // gate before ExecuteTask
+	GH      bool         `json:"gh"`    // gate inside the block hook and the local store read
+	Ops     []rop        `json:"ops"`
+	Pair    *pairSpec    `json:"pair,omitempty"`    // two-request family (pair.go); the fields above are unused then
+	Backlog *backlogSpec `json:"backlog,omitempty"` // full-mailbox family (backlog.go)
+	Tags    []string     `json:"tags,omitempty"`
 }
 
 func (c *rcase) dag() *dag.DAG {
@@ -765,11 +769,40 @@ func run(c *drv.Ctx) error {
 				cases, kinds = append(cases, genPair(r.Fork())), append(kinds, "random")
 				continue
 			}
+			if i%16 == 3 {
+				cases, kinds = append(cases, genBacklog(r.Fork())), append(kinds, "random")
+				continue
+			}
 			cases, kinds = append(cases, genCase(r.Fork())), append(kinds, "random")
 		}
 	}
 	retried := 0
 	for i, rc := range cases {
+		// a driver that dies or hangs inside a case leaves the case behind for bin/check
+		if b, err := json.Marshal(rc); err == nil {
+			_ = os.WriteFile(filepath.Join(c.Out, "inflight.json"), b, 0o644)
+		}
+		if rc.Backlog != nil {
+			br := runBacklog(*rc.Backlog)
+			if br.hung {
+				time.Sleep(200 * time.Millisecond)
+				br = runBacklog(*rc.Backlog)
+				retried++
+			}
+			tags := []string{"kind:" + kinds[i], "backlog", "backlog-" + rc.Backlog.Cause}
+			if rc.Backlog.Fillers >= mailboxSlots {
+				tags = append(tags, "backlog-mailbox-full")
+			}
+			rc.Tags = tags
+			idx := w.Add(br.q.term(), rc, true, tags...)
+			if br.hung {
+				w.Violation(idx, "the goroutines of the request manager never parked (10 s, twice): livelock", "reqlife-never-parked")
+			}
+			if br.goViol != "" {
+				w.Violation(idx, br.goViol, "reqlife-backlog-hang")
+			}
+			continue
+		}
 		if rc.Pair != nil {
 			pr := runPair(*rc.Pair)
 			if pr.hung {
@@ -837,6 +870,7 @@ func run(c *drv.Ctx) error {
 	if retried > 0 {
 		w.Stats.Extra = map[string]any{"cases_rerun_after_wait_expired": retried}
 	}
+	_ = os.Remove(filepath.Join(c.Out, "inflight.json"))
 	return w.Flush()
 }
 
